@@ -411,3 +411,80 @@ func VX_C06_SessionFieldBytes(args []int) {
 	vxAssert(s2.Health() && c2.nWrites() == 1, "another session still handles a call")
 	vxCover("c06.field")
 }
+
+func init() { vxRegister("VX_C20_PreSessionPools", VX_C20_PreSessionPools) }
+
+type vxPreOps struct {
+	op      int
+	fail    bool
+	conn    *vxConn
+	stat    *Status
+	ran     bool
+}
+
+func (p *vxPreOps) Name() string { return "vxpreops" }
+func (p *vxPreOps) PostAccept(s PreSession) *Status {
+	p.ran = true
+	if p.fail {
+		p.conn.failWrite = errVxClosed
+	}
+	switch p.op {
+	case 0:
+		var reply []byte
+		p.stat = s.PreCall("/pre", []byte("args"), &reply)
+	case 1:
+		p.stat = s.PreSend(TypePush, "/pre", []byte("args"), nil)
+	case 2:
+		in := GetMessage()
+		in.SetSeq(7)
+		in.SetServiceMethod("/pre")
+		p.stat = s.PreReply(in, []byte("r"), nil)
+		PutMessage(in)
+	}
+	p.conn.failWrite = nil
+	return nil
+}
+
+func vxFreshMessage(m Message) bool {
+	return m.Seq() == 0 && m.Mtype() == 0 && m.ServiceMethod() == "" && m.Meta().Len() == 0 && m.Body() == nil &&
+		m.StatusOK() && m.XferPipe().Len() == 0 && m.Size() == 0 && m.BodyCodec() == 0
+}
+
+// VX_C20_PreSessionPools: the pre-session operations (PreCall/PrePush/PreReply
+// from an accept hook), with or without a failing transport write, leave the
+// message pool sound: messages handed out afterwards are fresh and no two
+// users hold the same object. args: op(0 PreCall, 1 PreSend, 2 PreReply), writeFails(0/1)
+func VX_C20_PreSessionPools(args []int) {
+	vxPoolMode(1)
+	conn := newVxConn("srv:1", "cli:2")
+	ops := &vxPreOps{op: args[0], fail: args[1] == 1, conn: conn}
+	if args[0] == 0 && args[1] == 0 {
+		conn.feed(vxFrame(TypeReply, 0, "/pre", []byte("rep")))
+	}
+	p := vxNewPeer(ops)
+	_, st := p.ServeConn(conn)
+	vxAssert(ops.ran, "accept hook ran")
+	if args[1] == 1 {
+		vxAssert(!ops.stat.OK(), "failing write is reported to the hook")
+	} else {
+		vxAssert(ops.stat.OK(), "pre-session operation succeeds")
+	}
+	_ = st
+	vxWaitIdle()
+	var held []Message
+	for k := 0; k < 4; k++ {
+		m := GetMessage()
+		vxAssert(vxFreshMessage(m), "a message handed out by the pool is fresh")
+		for _, h := range held {
+			vxAssert(h != m, "the pool never hands the same message to two users")
+		}
+		m.SetSeq(int32(100 + k))
+		m.SetServiceMethod("/in/use")
+		m.SetBody([]byte("owner"))
+		held = append(held, m)
+	}
+	for _, h := range held {
+		PutMessage(h)
+	}
+	vxCover("c20.presession")
+}
